@@ -724,6 +724,15 @@ func verdictC10(c c10Case, o c10Obs) (sig, detail string) {
 	return "", ""
 }
 
+// failureOf returns the failure kind and site of a C10 signature (everything after the stream class).
+func failureOf(sig string) string {
+	parts := strings.Split(sig, "/")
+	if len(parts) < 2 {
+		return sig
+	}
+	return strings.Join(parts[len(parts)-2:], "/")
+}
+
 func sortedKeys(m map[int]int) []int {
 	var k []int
 	for x := range m {
@@ -882,6 +891,28 @@ func mainC10() {
 				w.Sample(c)
 			}
 			sig, detail := verdictC10(c, o)
+			if sig != "" && c.Op == "dup2" {
+				// attribute a two-copy failure to one of its copies if the history with only that copy fails
+				// in the same way (same failure kind and site), so that two-copy histories do not multiply signatures
+				ref := refReceive(c.Hist, c.Seq)
+				for _, pos := range ref.rejected {
+					sub := c
+					sub.Op = "dup1"
+					sub.Seq = append(append([]int(nil), c.Seq[:pos]...), c.Seq[pos+1:]...)
+					var so c10Obs
+					d, err := pl.run(sub, &so)
+					if err != nil {
+						evid.EngineError("C10", "executor failure on case %+v: %v", sub, err)
+					}
+					if d != nil {
+						so = c10Obs{Died: d.Kind, DiedTop: d.Top, DiedLog: d.Exit}
+					}
+					if ssig, _ := verdictC10(sub, so); ssig != "" && failureOf(ssig) == failureOf(sig) {
+						sig, detail = ssig, detail+fmt.Sprintf(" (two copies; the history %v with one copy fails in the same way)", sub.Seq)
+						break
+					}
+				}
+			}
 			if sig != "" {
 				w.Violate(sig, fmt.Sprintf("%s; case %+v; observed %+v", detail, c, o), c)
 				w.Outcome(strings.SplitN(sig, "/", 4)[3])
